@@ -193,8 +193,10 @@ def analyse(kind, x, kw, st, out, recs, rounding=False):
     signs = ('+', '-') if mode == 'flip' else ('+',)
     if any(r.get('err') for r in recs):
         return [], 'member-raised', info
-    if sum(1 for r in recs if r['kind'] == 'member') != len(lay) * nens * len(signs) and st == 'ok' and kind != 'ensemble_sift':
-        return [], 'degenerate-layers', info             # two layers perturbing the very same residual cannot be told apart
+    if sum(1 for r in recs if r['kind'] == 'member') > len(lay) * nens * len(signs) and st == 'ok' and kind != 'ensemble_sift':
+        # MORE member calls than layers x members x signs: two layers perturbing the very same residual were merged by layers_of and
+        # cannot be told apart.  (FEWER calls is not this case: a member or a sign is missing, which the per-layer test below reports)
+        return [], 'degenerate-layers', info
     # ---- every layer: one call per (member, sign); noise = sift input - X
     for L, (XL, members) in enumerate(lay):
         if sorted(members, key=lambda m: (m is None, m)) != list(range(nens)) or any(sorted(v) != sorted(signs) for v in members.values()):
